@@ -2,6 +2,7 @@ package c05
 
 import (
 	"fmt"
+	"runtime"
 	"sort"
 	"sync"
 	"sync/atomic"
@@ -844,4 +845,147 @@ func TestVerifRace_Stress(t *testing.T) {
 		r.Count("hook:"+p, c)
 	}
 	r.Finish()
+}
+
+// ---- tables registered at the same instant ----
+
+// Registration is a write of the root like any commit. k goroutines enter NewTable behind a spin barrier; afterwards every table
+// gets its own writer committing a row of its own (sequentially and then all at once). Each table must then hold exactly its own
+// rows: two registrations that ended up in one slot of the root make two "tables" one, and the writers - each correctly holding
+// the lock of its table - overwrite each other (c05r8-1).
+func TestVerif_ConcurrentRegistration(t *testing.T) {
+	r := vkit.Start(t, "C05", "concurrent-registration", "exploration", "rounds of 2-8 NewTable calls released by a spin barrier on one database (half of the rounds with a committer running on an earlier table), then one writer per new table "+
+		"committing rows named after its table, first one after the other, then simultaneously; every table must contain exactly its own rows and every registered name must be listed once; "+
+		"non-trivial = all registrations of the round succeeded; distinct = round index")
+	r.Require("rounds", "tables_checked")
+	rounds := vkit.N(400, 20000)
+	for round := 0; round < rounds && r.Violations() < 3; round++ {
+		rng := r.Rand(round)
+		db := statedb.New()
+		base := concw.NewTables(db, "base", 1)
+		k := 2 + rng.IntN(7)
+		var wg sync.WaitGroup
+		var ready, goFlag atomic.Int32
+		tbls := make([]statedb.RWTable[*concw.Row], k)
+		errs := make([]error, k)
+		for g := 0; g < k; g++ {
+			wg.Add(1)
+			go func(g int) {
+				defer wg.Done()
+				ready.Add(1)
+				for goFlag.Load() == 0 {
+				}
+				tbls[g], errs[g] = statedb.NewTable(db, fmt.Sprintf("c%d", g), concw.IDIndex, concw.TagIndex)
+			}(g)
+		}
+		stopC := make(chan struct{})
+		var cwg sync.WaitGroup
+		commits := 0
+		if round%2 == 0 {
+			cwg.Add(1)
+			go func() {
+				defer cwg.Done()
+				for {
+					select {
+					case <-stopC:
+						return
+					default:
+					}
+					w := db.WriteTxn(base[0])
+					base[0].Insert(w, &concw.Row{ID: "b", V: int64(commits)})
+					w.Commit()
+					commits++
+				}
+			}()
+		}
+		for ready.Load() < int32(k) {
+			runtime.Gosched()
+		}
+		goFlag.Store(1)
+		wg.Wait()
+		close(stopC)
+		cwg.Wait()
+		okAll := true
+		for g := range tbls {
+			if errs[g] != nil || tbls[g] == nil {
+				okAll = false
+				r.Violation("registration-refused", round, map[string]any{"message": fmt.Sprintf("NewTable(c%d) with a fresh name failed: %v", g, errs[g])})
+			}
+		}
+		if !okAll {
+			continue
+		}
+		// one after the other
+		for g, tb := range tbls {
+			w := db.WriteTxn(tb)
+			tb.Insert(w, &concw.Row{ID: fmt.Sprintf("c%d-seq", g), V: int64(g)})
+			w.Commit()
+		}
+		// all at once
+		goFlag.Store(0)
+		ready.Store(0)
+		for g, tb := range tbls {
+			wg.Add(1)
+			go func(g int, tb statedb.RWTable[*concw.Row]) {
+				defer wg.Done()
+				ready.Add(1)
+				for goFlag.Load() == 0 {
+				}
+				for i := 0; i < 3; i++ {
+					w := db.WriteTxn(tb)
+					tb.Insert(w, &concw.Row{ID: fmt.Sprintf("c%d-par%d", g, i), V: int64(g)})
+					w.Commit()
+				}
+			}(g, tb)
+		}
+		for ready.Load() < int32(k) {
+			runtime.Gosched()
+		}
+		goFlag.Store(1)
+		wg.Wait()
+		rt := db.ReadTxn()
+		names := map[string]int{}
+		for _, m := range db.GetTables(rt) {
+			names[m.Name()]++
+		}
+		for g, tb := range tbls {
+			r.Count("tables_checked", 1)
+			if names[fmt.Sprintf("c%d", g)] != 1 {
+				r.Violation("lost-table/concurrent-registration", round, map[string]any{"message": fmt.Sprintf("round %d: table c%d, registered together with %d others, is listed %d times in the committed state", round, g, k-1, names[fmt.Sprintf("c%d", g)])})
+				continue
+			}
+			want := map[string]bool{fmt.Sprintf("c%d-seq", g): true}
+			for i := 0; i < 3; i++ {
+				want[fmt.Sprintf("c%d-par%d", g, i)] = true
+			}
+			got := map[string]bool{}
+			for row := range tb.All(rt) {
+				got[row.ID] = true
+			}
+			same := len(got) == len(want) && tb.NumObjects(rt) == len(want)
+			for id := range want {
+				same = same && got[id]
+			}
+			if !same {
+				r.Violation("lost-write/concurrent-registration", round, map[string]any{"message": fmt.Sprintf("round %d: table c%d (one of %d registered at the same instant) holds %v after its only writer committed %v: committed writes of correctly serialised writers were lost or landed in another table", round, g, k, keys(got), keys(want))})
+			}
+		}
+		if round%2 == 0 {
+			if v := concw.Get(rt, base[0], "b"); commits > 0 && v != int64(commits-1) {
+				r.Violation("lost-write/registration-vs-commit", round, map[string]any{"message": fmt.Sprintf("round %d: the committer's last commit wrote %d, the table holds %d", round, commits-1, v)})
+			}
+		}
+		r.Count("rounds", 1)
+		r.Case(uint64(round), true)
+	}
+	r.Finish()
+}
+
+func keys(m map[string]bool) []string {
+	out := make([]string, 0, len(m))
+	for k := range m {
+		out = append(out, k)
+	}
+	sort.Strings(out)
+	return out
 }
